@@ -325,7 +325,7 @@ func TestVerifC40Replay(t *testing.T) {
 	fmt.Printf("VERIF_SUMMARY {\"behaviours\":%d,\"events\":%d}\n", len(lines), tr.N)
 }
 
-// TestVerifC40Random: seeded random histories inside the driven domain (calls only to endpoints that
+// TestVerifC40Random: seeded random histories (up to 5 endpoints) inside the driven domain (calls only to endpoints that
 // do not appear ejected, per-interval volumes that divide 120, enforcement percentages 0 / 100).
 func TestVerifC40Random(t *testing.T) {
 	tr, err := vlib.NewTrace(os.Getenv("VERIF_OUT"))
@@ -339,7 +339,7 @@ func TestVerifC40Random(t *testing.T) {
 	divs := []int{1, 2, 3, 4, 5, 6, 8, 10, 12}
 	pick := func(xs []int) int { return xs[rng.Intn(len(xs))] }
 	randCfg := func() c40Cfg {
-		c := c40Cfg{MaxPct: pick([]int{0, 25, 34, 50, 50, 67, 75, 100, 100}), Base: pick([]int{0, 1, 2, 3}), MaxT: pick([]int{0, 2, 4, 9})}
+		c := c40Cfg{MaxPct: pick([]int{0, 20, 20, 25, 25, 34, 40, 50, 50, 67, 75, 100, 100}), Base: pick([]int{0, 1, 2, 3}), MaxT: pick([]int{0, 2, 4, 9})}
 		k := rng.Intn(8)
 		if k != 0 && k != 1 && k != 2 {
 			c.Sr = true
@@ -361,8 +361,8 @@ func TestVerifC40Random(t *testing.T) {
 		var out []int
 		for len(out) == 0 {
 			out = nil
-			for e := 1; e <= 4; e++ {
-				if rng.Intn(4) != 0 {
+			for e := 1; e <= 5; e++ {
+				if rng.Intn(5) != 0 {
 					out = append(out, e)
 				}
 			}
@@ -394,8 +394,17 @@ func TestVerifC40Random(t *testing.T) {
 					for _, e := range env.obs()["tf"].([]int) {
 						tfNow[e] = true
 					}
+					// every third round is a burst: two or more endpoints fail together with a volume that
+					// passes any configured request_volume, so that several outliers compete for the
+					// max_ejection_percent budget within one pass
+					burst := map[int]bool{}
+					if rng.Intn(3) == 0 {
+						for k := 2 + rng.Intn(2); k > 0; k-- {
+							burst[env.eps[rng.Intn(len(env.eps))]] = true
+						}
+					}
 					for _, e := range env.eps {
-						if tfNow[e] || rng.Intn(6) == 0 {
+						if tfNow[e] || (!burst[e] && rng.Intn(6) == 0) {
 							continue
 						}
 						v := pick(divs)
@@ -405,6 +414,10 @@ func TestVerifC40Random(t *testing.T) {
 							f = v
 						case 1:
 							f = rng.Intn(v + 1)
+						}
+						if burst[e] {
+							v = pick([]int{5, 6, 8, 10})
+							f = v
 						}
 						env.apply(c40Step{A: "calls", E: e, S: v - f, F: f}, tr)
 					}
